@@ -20,20 +20,16 @@ fn compute_intersection(
     s: &Coord<f64>,
     e: &Coord<f64>,
 ) -> Coord<f64> {
-    let dc = Coord {
-        x: cp1.x - cp2.x,
-        y: cp1.y - cp2.y,
-    };
-    let dp = Coord {
-        x: s.x - e.x,
-        y: s.y - e.y,
-    };
-    let n1 = cp1.x * cp2.y - cp1.y * cp2.x;
-    let n2 = s.x * e.y - s.y * e.x;
-    let n3 = 1.0 / (dc.x * dp.y - dc.y * dp.x);
+    // The crossing of the segment cp1-cp2 with the line through s and e, computed along the
+    // segment: the same point as the line-line formula, but it cannot leave the segment when
+    // both end points lie (numerically) on the line.
+    let side = |q: &Coord<f64>| (e.x - s.x) * (q.y - s.y) - (e.y - s.y) * (q.x - s.x);
+    let d1 = side(cp1);
+    let d2 = side(cp2);
+    let t = (d1 / (d1 - d2)).clamp(0.0, 1.0);
     Coord {
-        x: (n1 * dp.x - n2 * dc.x) * n3,
-        y: (n1 * dp.y - n2 * dc.y) * n3,
+        x: cp1.x + t * (cp2.x - cp1.x),
+        y: cp1.y + t * (cp2.y - cp1.y),
     }
 }
 
